@@ -29,6 +29,36 @@ def mk_sql(nbytes, multibyte):
     return txt
 
 
+def run_nested(mode, processes, skip_fail, which):
+    """The limit comes from a config file in a sub-directory (lower limit there) or is lifted there (which='lift')."""
+    from click.testing import CliRunner
+    from sqlfluff.cli.commands import lint, fix
+    d = tempfile.mkdtemp(prefix="verif_c34n_")
+    cwd0 = os.getcwd()
+    try:
+        os.makedirs(os.path.join(d, "gen"))
+        root_limit, sub_limit = (0, 60) if which == "lower" else (60, 0)
+        open(os.path.join(d, ".sqlfluff"), "w").write("[sqlfluff]\ndialect = ansi\nrules = LT01\nlarge_file_skip_byte_limit = %d\nlarge_file_skip_fail = %s\n" % (root_limit, skip_fail))
+        open(os.path.join(d, "gen", ".sqlfluff"), "w").write("[sqlfluff]\nlarge_file_skip_byte_limit = %d\n" % sub_limit)
+        big = mk_sql(120, False)
+        pb = os.path.join(d, "gen", "big.sql"); open(pb, "w", newline="").write(big)
+        ps = os.path.join(d, "small.sql"); open(ps, "w", newline="").write("SELECT b FROM t\n")
+        os.chdir(d)
+        r = CliRunner().invoke(lint if mode == "lint" else fix, [".", "--disable-progress-bar", "--processes", str(processes)] + (["--format", "json"] if mode == "lint" else []))
+        out = {"exit": r.exit_code, "big_after": open(pb, newline="").read(), "big": big,
+               "exc": repr(r.exception) if r.exception and not isinstance(r.exception, SystemExit) else None}
+        if mode == "lint":
+            try:
+                js = json.loads(r.output[r.output.index("["):])
+                out["big_violations"] = sum(len(x["violations"]) for x in js if x["filepath"].endswith("big.sql"))
+            except Exception:
+                out["big_violations"] = None
+        return out
+    finally:
+        os.chdir(cwd0)
+        shutil.rmtree(d, ignore_errors=True)
+
+
 def run_case(limit_kind, limit, size, multibyte, mode, processes, skip_fail):
     from click.testing import CliRunner
     from sqlfluff.cli.commands import lint, fix
@@ -125,6 +155,33 @@ def run(ctx, prove=True):
                 ctx.violation("no file skipped but fix exit is %d" % o["exit"], case)
             if mode == "lint" and not o.get("big_violations"):
                 ctx.violation("a file within the size limit was not linted (skipped?)", case)
+    # the limit that applies is the one of the file's own (nearest) configuration
+    for which in ("lower", "lift"):
+        for mode in ("lint", "fix"):
+            for skip_fail in (False, True):
+                for processes in ((1, 2) if (mode, skip_fail) == ("fix", True) else (1,)):
+                    try:
+                        o = run_nested(mode, processes, skip_fail, which)
+                    except Exception as e:
+                        ctx.bump("nested_failed:" + type(e).__name__); continue
+                    case = {"nested_config": which, "mode": mode, "processes": processes, "large_file_skip_fail": skip_fail, "bytes": 120, "sub_limit": 60 if which == "lower" else 0}
+                    over = which == "lower"
+                    ctx.count(json.dumps(case, sort_keys=True), nontrivial=True)
+                    ctx.bump("nested_" + which)
+                    if o["exc"]:
+                        ctx.violation("CLI raised on an oversized-file run", dict(case, exception=o["exc"])); continue
+                    if over:
+                        if o["big_after"] != o["big"]:
+                            ctx.violation("an oversized file (limit set by a nested config) was rewritten", case)
+                        if mode == "lint" and o.get("big_violations"):
+                            ctx.violation("an oversized file (limit set by a nested config) was linted", case)
+                        if o["exit"] != (1 if skip_fail else 0):
+                            ctx.violation("skipped oversized file (nested config): exit %d" % o["exit"], case)
+                    else:
+                        if mode == "fix" and o["big_after"] == o["big"]:
+                            ctx.violation("a file whose nested config lifts the size limit was skipped", case)
+                        if mode == "lint" and not o.get("big_violations"):
+                            ctx.violation("a file whose nested config lifts the size limit was not linted", case)
     outs = ctx.driver.run(lines)
     for (case, over), out in zip(meta, outs):
         if (out == "1") != over:
